@@ -28,6 +28,7 @@ EXPLANATION = (
     " R6 also requires that no (edge, value) pair is skipped (each iteration of the loop chain edges > values > producers reaches the next loop, the innermost one the compatibility question or a rejection, evaluated for a value-carrying data edge), that only data edges are typed (no rejection reachable for an ordering or control edge, or such edges name no value), and that the producer side ranges over every node producing the value name whenever data edges are drawn from the first producer of a shared name only."
     " R1 also requires that nested-graph node names reach a check of their own on the branch that skips the identifier test, and that both endpoints of every recorded explicit edge are looked up in the node table whatever their spelling; R7 also requires that a producer listed twice for one name is rejected (a node is neither exclusive with nor ordered after itself)."
     " R7 also requires that the up-front duplicate rejection covers a sole producer listing a name twice and that nothing the pair tests use is carried from one shared name to the next."
+    " R7 also requires that 'exclusive to a branch' means reachable from exactly one target of the gate (count == 1 over all targets' reachable sets, or the difference with the union of the others), and that on the inferred-edges path branch membership is computed on a graph built from the complete edge map (the structure graph has data edges from the first producer of a shared name only)."
 )
 NOT_DECIDED = "The type-compatibility relation itself (a function over type objects) and the correctness of each individual validator's predicate; position independence is argued from the wiring, not tested."
 
